@@ -138,6 +138,8 @@ SupportedKinds == {
     "assign-name-while-prefix", "assign-name-return-prefix", "assign-name-pass-prefix", "assign-name-print-prefix", "assign-name-global-prefix",
     "assign-name-try-prefix", "assign-name-else-prefix", "assign-name-target-prefix", "assign-name-sleep-prefix",
     "augassign-name-import-prefix", "call-helper-import-prefix", "call-helper-print-prefix",
+    "call-helper-named-help", "call-helper-named-input", "call-helper-named-exit", "call-helper-named-quit", "call-helper-named-breakpoint",
+    "call-helper-named-vars", "call-helper-named-id", "call-helper-named-dir",
     \* string literals that contain `#` after escaped quotes (a comment stripper must respect the literal), and a loop
     \* sitting next to a first assignment in the same `if` (the promotion pass rewrites that branch)
     "serial-write-hash-dq", "serial-write-hash-sq", "if-hash-literal", "if-first-assign-and-for", "else-first-assign-and-while"}
